@@ -48,7 +48,9 @@ theorem hub_get_length_le (h : Hub) (ch : String) (f : Filter) (mt nowS : Nat) (
       · simpa using get_length_le_limit _ _ _ _ _ hl
     · split
       · simp
-      · simpa using get_length_le_limit _ _ _ _ _ hl
+      · split
+        · simp
+        · simpa using get_length_le_limit _ _ _ _ _ hl
 
 /-- node-level: a reply never has more publications than a non-negative limit -/
 theorem nodeHistory_length_le (b : Broker) (ch : String) (f : Filter) (now : Nat) (hl : 0 ≤ f.limit)
